@@ -124,3 +124,129 @@ PROPS = {
         "not_decided": [],
     },
 }
+
+KERN_COMPLETE = ['complete_select_i8', 'complete_select_i64', 'complete_select_u32', 'complete_midpoint_i8', 'complete_midpoint_i16', 'complete_midpoint_i32', 'complete_midpoint_i64', 'complete_midpoint_u8', 'complete_midpoint_u16', 'complete_midpoint_u32', 'complete_midpoint_u64']
+INDEX_HARNESSES = ['bounded_index_len1', 'bounded_index_len2', 'bounded_index_len3', 'bounded_index_len4', 'bounded_index_len5', 'bounded_index_len7', 'bounded_index_len10']
+LINEAR_HARNESSES = ["bounded_linear_i8_len3", "bounded_linear_u8_len4"]
+KANI_BOUND = "index/Nearest laws: q fully symbolic in [0,1], len enumerated in {1,2,3,4,5,7,10}; Linear kernel: all i8 (len 3) / u8 (len 4) neighbour pairs with representable spread, q fully symbolic (thorough tier only)"
+
+PROPS.update({
+    "C01": {
+        "level": "proof",
+        "level_text": "decomposed along the call chain of quantiles_axis_mut: (1) selection - Verus proves on the extracted src/sort.rs bodies that the value fetched for index k is the k-th order statistic of the lane under every pivot sequence (C02 cone); (2) strategy kernels - loop-free full-domain Kani harnesses on the real Interpolate impls prove for i8..i64/u8..u64 that Lower/Higher return exactly the requested neighbour and that Midpoint lies in [lower, higher] within one unit of the exact midpoint whenever the spread is representable (complete proofs); (3) index pair and Nearest - Kani with q fully symbolic, len enumerated (bounded); (4) the glue of quantiles_axis_mut (q validation, Zip over lanes, IndexMap read-back, shapes, request order) is outside both verifiers and is enumerated on the real API against a sort-based oracle (bounded)",
+        "level_note": "counted as proof: Verus queries of the sort unit + 11 complete Kani kernels. NOT counted (bounded): index/Nearest harnesses (len in {1..5,7,10}), Linear kernel (i8/u8 only, thorough), enum:quantiles (lanes <= 4/5, 4 element types, shapes up to 4-D, 5 strategies, layouts, pivot scripts). Not decided: Midpoint/Linear on N64 beyond a 1e-9 relative tolerance; 2 recorded findings (signed spread overflow in Midpoint and Linear)",
+        "technique": "Verus contracts on extracted selection code + loop-free Kani kernels on the real interpolation strategies; bounded enumeration of the n-D glue",
+        "design_ref": "DESIGN.md 4 (C01)",
+        "verus": [("sort", "N")],
+        "also_tags": ["C02"],
+        "kani": {"complete": KERN_COMPLETE, "bounded_quick": INDEX_HARNESSES, "bounded_thorough": LINEAR_HARNESSES, "bound": KANI_BOUND},
+        "enum": [{"name": "quantiles"}],
+        "assumptions": [A_ND, A_RNG, A_ORD, A_STD, A_VERUS, A_EXTRACT, A_ENUM, "A-KANI: CBMC's bit-precise semantics of the MIR Kani generates (incl. IEEE-754 for the index arithmetic)", BOUNDED_NOTE],
+        "assumed_repo_fns": ["src/quantile/mod.rs quantiles_axis_mut (inner fn), quantile_axis_mut, quantile_mut, quantiles_mut: glue outside Verus/Kani - bounded enumeration only"],
+        "not_decided": ["Midpoint / Linear on N64 lanes (float arithmetic) beyond the enumerated tolerance check", "Linear on 16..64-bit integers beyond the enumerated lanes (a symbolic f64 multiplication does not finish in CBMC)"],
+    },
+    "C19": {
+        "level": "proof",
+        "level_text": "the order laws follow from facts established per component: selection returns order statistics whatever the pivots and whatever permutation of the lane is stored (Verus, C02 cone: the contract speaks about the multiset only); the index pair is monotone in q, adjacent, equal exactly when the fraction is 0, 0 at q=0 and N-1 at q=1 (Kani, q symbolic, len enumerated: bounded); kernels: Lower/Higher exact, Midpoint within [lower, higher] and equal to both when they coincide (Kani complete). The API-level laws (monotone in q, min/max at 0/1, Lower <= others <= Higher, coincidence at integral positions, permutation invariance, commuting with increasing relabellings) are additionally enumerated without an oracle",
+        "level_note": "counted as proof: sort-unit Verus queries + complete kernels; bounded: index harnesses, enum:qlaws (lanes <= 4/5 over i32, i8, N64; all permutations for N <= 4), enum:quantiles. Float Linear 'up to one ulp': not decided",
+        "technique": "Verus selection contracts + Kani kernel/index harnesses; oracle-free bounded law enumeration",
+        "design_ref": "DESIGN.md 4 (C19)",
+        "verus": [("sort", "N")],
+        "also_tags": ["C02"],
+        "kani": {"complete": KERN_COMPLETE, "bounded_quick": INDEX_HARNESSES, "bound": KANI_BOUND},
+        "enum": [{"name": "qlaws"}],
+        "assumptions": [A_ND, A_RNG, A_ORD, A_STD, A_VERUS, A_EXTRACT, A_ENUM, BOUNDED_NOTE],
+        "not_decided": ["floating-point Linear interpolation up to one ulp"],
+    },
+    "C18": {
+        "level": "proof",
+        "level_text": "bulk selection equals single selection: Verus proves that every entry of get_many_from_sorted_mut and the result of get_from_sorted_mut satisfy the same specification selected_at(array, i, .) on a permutation of the same input, which determines the value up to order-equivalence (and exactly for total orders that coincide with equality), for every request list and pivot sequence. quantile_axis_mut is literally quantiles_axis_mut with one q followed by index_axis_move; the bulk/single agreement of the quantile API and of the per-axis weighted sums/means is enumerated on the real crate",
+        "level_note": "counted as proof: sort unit. bounded: enum:quantiles (bulk slice j vs single call, request lists with repeats/empty), enum:select_many, enum:means (per-axis forms vs per-lane whole-array routine). Not decided: central_moments(p)[k] vs central_moment(k) bit for bit and the float per-axis variance (float closure chains, powi)",
+        "technique": "Verus contracts shared by the bulk and single selection routines; bounded enumeration for the quantile / per-axis glue",
+        "design_ref": "DESIGN.md 4 (C18)",
+        "verus": [("sort", "N")],
+        "enum": [{"name": "select_many"}, {"name": "quantiles"}, {"name": "means"}],
+        "assumptions": [A_ND, A_RNG, A_ORD, A_STD, A_VERUS, A_EXTRACT, A_ENUM, BOUNDED_NOTE],
+        "not_decided": ["central_moments(p)[k] == central_moment(k) bit for bit", "per-axis weighted variance / standard deviation (floats)"],
+    },
+    "C03": {
+        "level": "proof",
+        "level_text": "Verus proves permutation postconditions (multiset of the view after = multiset before) for partition_mut, get_from_sorted_mut, the bulk selection core/middle/wrapper and remove_nan_mut (result + missing tail = input multiset, tail stays in the parent) on the extracted bodies; the only mutation primitive those bodies use is swap on the view (A-ND: it touches exactly those two logical elements), so nothing outside the view can change. The n-D forms (quantile*_axis_mut, quantile_axis_skipnan_mut, map_axis_skipnan_mut) delegate lane by lane through ndarray's lanes_mut/map_axis_mut: lane independence and the frame are enumerated with guard elements around stepped views",
+        "level_note": "counted as proof: sort and nan units. bounded: enum:quantiles (lanes keep their multisets, guards of a stepped parent intact, every axis), enum:nanview (frame at the memory level), enum:skipnan (map_axis_skipnan_mut / quantile_axis_skipnan_mut keep lane multisets), enum:select",
+        "technique": "Verus multiset postconditions + frame through the trusted swap/sub-view contracts; bounded guard-element enumeration for the n-D forms",
+        "design_ref": "DESIGN.md 4 (C03)",
+        "verus": [("sort", "N"), ("nan", "N")],
+        "enum": [{"name": "select"}, {"name": "quantiles"}, {"name": "nanview"}, {"name": "skipnan"}],
+        "assumptions": [A_ND, A_RNG, A_ORD, A_STD, A_VERUS, A_EXTRACT, A_ENUM, BOUNDED_NOTE],
+        "not_decided": [],
+    },
+    "C14": {
+        "level": "exploration",
+        "level_text": "proved core: Verus shows remove_nan_mut hands over exactly the non-missing elements of a lane (C04 clauses tagged C14), which is what quantile_axis_skipnan_mut / map_axis_skipnan_mut apply the plain operation to. The skip-NaN folds, visits and min/max forms are closures capturing mutable state (rejected by Verus) and are compared on the real crate with filter-then-plain computed independently",
+        "level_note": "bounded: f64 and Option<i32> over 4-letter alphabets, every content for <= 4 elements, shapes 1-D..3-D incl. empty, every axis, 3 layouts; quantiles for q in {0,.3,.5,1} x {Lower,Higher,Nearest}",
+        "technique": "Verus contract on remove_nan_mut (core) + bounded enumeration of the skip-NaN API against filter-then-plain",
+        "design_ref": "DESIGN.md 4 (C14)",
+        "verus": [("nan", "N")],
+        "enum": [{"name": "skipnan"}],
+        "assumptions": [A_ND, A_VERUS, A_EXTRACT, A_ENUM, BOUNDED_NOTE],
+        "not_decided": ["f32 element type; arrays with more than 8 elements"],
+        "rule": "one case per (element type, shape, content, layout); non-trivial = at least 2 elements and at least one missing value",
+    },
+    "C05": {
+        "level": "exploration",
+        "level_text": "argmin/argmax/min/max iterate with indexed_iter / fold closures over n-D arrays; they are compared on the real crate with the definition: designated element <= (>=) every element, arg-form value == value-form value, EmptyInput exactly for empty arrays, UndefinedOrder exactly when a NaN is present (first / middle / last position)",
+        "level_note": "bounded: f64 over {NaN,-0.0,0.0,-inf,inf,1.5} and i32: every content for arrays of <= 4 elements (sampled above), shapes 0-D..4-D incl. zero-length axes, 5 layouts. A Verus contract over a ghost-iterator model of indexed_iter is the planned stretch (DESIGN.md 4 C05)",
+        "technique": "bounded exhaustive enumeration on the real crate (stand-in; Verus contract on the iterator loop not finished)",
+        "design_ref": "DESIGN.md 4 (C05)",
+        "enum": [{"name": "minmax"}],
+        "assumptions": [A_ENUM, BOUNDED_NOTE],
+        "not_decided": ["arrays with more than 4 elements beyond the sampled ones"],
+        "rule": "one case per (element type, shape, content, layout); non-trivial = at least 2 elements",
+    },
+    "C06": {
+        "level": "exploration",
+        "level_text": "integer clause: mean, weighted_sum, weighted_mean and the per-axis forms are compared with exact i64 arithmetic and the type's own division, data and weights in different memory layouts (pairing by logical index), per-axis results with the whole-array routine per lane. The bodies are iterator/closure chains (sum, zip+fold, map_axis) outside Verus. Float clause: only small-integer-valued data (exact sums) and a 1e-12 relative comparison of harmonic/geometric mean with their definitions",
+        "level_note": "bounded: i64/i32 data over {-9,0,4,100}, weights {0,1,3}, <= 3 elements exhaustively and sampled above, shapes up to 3-D, 9 layout pairings. The forward-error bound for floats (c*u*sum|terms|) is NOT decided: Verus has no float semantics and CBMC's does not scale past 2-3 symbolic multiplications",
+        "technique": "bounded enumeration against exact integer arithmetic on the real crate",
+        "design_ref": "DESIGN.md 4 (C06)",
+        "enum": [{"name": "means"}],
+        "assumptions": [A_ENUM, BOUNDED_NOTE],
+        "not_decided": ["floating-point accuracy of mean/weighted_sum/weighted_mean/harmonic_mean/geometric_mean (rounding-error analysis)"],
+        "rule": "one case per (shape, data, weights, layout pair) or (axis, axis weights); non-trivial = at least 2 elements",
+    },
+    "C09": {
+        "level": "exploration",
+        "level_text": "count_eq/count_neq and the integer distances are compared with the definition computed in i64 on the real crate, for every pairing of 5 layouts of the two operands and 4 ownership kinds; symmetry and zero-on-identical are checked exactly; the derived float measures are compared bit for bit with the documented function (sqrt, /n, sqrt of /n, 10 log10(maxv^2/mse)) of the exact integer value. Bodies are Zip::for_each closures mutating captured accumulators (rejected by Verus)",
+        "level_note": "bounded: i64/i32 over {-7,0,3,1000}, all pairs of contents for <= 2 elements, sampled above, shapes up to 4-D. Float inputs 'within roundoff': not decided",
+        "technique": "bounded enumeration against exact integer arithmetic on the real crate",
+        "design_ref": "DESIGN.md 4 (C09)",
+        "enum": [{"name": "deviation"}],
+        "assumptions": [A_ENUM, BOUNDED_NOTE],
+        "not_decided": ["float inputs (roundoff), big-integer element types"],
+        "rule": "one case per (shape, contents of both operands, layout pair); non-trivial = at least 2 elements and operands differ",
+    },
+    "C11": {
+        "level": "exploration",
+        "level_text": "proved part: the per-axis bin lookup Bins::index_of is left-closed/right-open and unique (Verus, bins unit, clauses tagged C11). Grid::index_of (zip/map/collect), Histogram::add_observation (ArrayD indexing) and histogram() (axis_iter) are outside Verus: after every single insert the counts are compared with the definition, rejected inserts must change nothing, the counts array has the grid's shape, permuted sequences and row-/column-major matrices give equal counts",
+        "level_note": "bounded: grids of 1..3 axes over 5 edge sets (incl. 0- and 1-edge axes), observation sequences of length <= 3 (quick) / 4 (thorough) over 7 coordinate values per axis (inside, on every edge, outside); sequences are sampled (seeded) for >= 2 axes",
+        "technique": "Verus contract on the bin lookup + bounded enumeration of grid/histogram histories on the real crate",
+        "design_ref": "DESIGN.md 4 (C11)",
+        "verus": [("bins", "N")],
+        "enum": [{"name": "histogram"}],
+        "assumptions": [A_ORD, A_STD, A_VERUS, A_EXTRACT, A_ENUM, BOUNDED_NOTE],
+        "not_decided": [],
+        "rule": "one case per (grid, observation sequence); non-trivial = at least one observation and every axis has at least one bin",
+    },
+    "C20": {
+        "level": "exploration",
+        "level_text": "for the functions under a Verus contract the shim exposes only ndarray's logical interface, so their proofs hold for every layout/ownership for which ndarray honours that interface (sort, nan units: clauses tagged C20; assumption A-ND). The stride-aware unsafe code is enumerated at the memory level (enum:nanview). Every other public routine is run on pairs (canonical array, logically equal re-layout) and must return bit-identical results for order-based and integer statistics and exact results for float sums of small integers",
+        "level_note": "bounded: enum:layouts - random integer-valued data, shapes 1-D..4-D (<= 16 elements), F-order / stepped-in-parent / reversed axes / embedded at an offset, owned/view/shared/copy-on-write, static vs dynamic dimension; enum:nanview. Float sums under different summation orders: only exactly-representable data",
+        "technique": "layout-free trusted interface in the Verus shim + bounded pairwise enumeration on the real crate",
+        "design_ref": "DESIGN.md 4 (C20)",
+        "verus": [("nan", "N")],
+        "enum": [{"name": "layouts"}, {"name": "nanview"}],
+        "assumptions": [A_ND, A_VERUS, A_EXTRACT, A_ENUM, BOUNDED_NOTE],
+        "not_decided": ["floating-point sums whose value depends on summation order (roundoff bound)"],
+        "rule": "one case per (shape, data, layout) pair against the canonical C-order array; non-trivial = a non-canonical layout with at least 2 elements",
+    },
+})
